@@ -66,6 +66,21 @@ def negation_tables(chk, repo):
     for c in classes:
         call = [s for s in c.body if isinstance(s, ast.FunctionDef)
                 and s.name == '__call__']
+        owner = c
+        seen = set()
+        while not call and owner is not None and owner.name not in seen:
+            # inherited from a base class of the same module
+            seen.add(owner.name)
+            nxt = None
+            for b in owner.bases:
+                if isinstance(b, ast.Name):
+                    for cc in tree.body:
+                        if isinstance(cc, ast.ClassDef) and cc.name == b.id:
+                            nxt = cc
+            owner = nxt
+            if owner is not None:
+                call = [s for s in owner.body if isinstance(
+                    s, ast.FunctionDef) and s.name == '__call__']
         if not call:
             chk.ob('R08.1', False, MQ, c, key='call:' + c.name,
                    qualname=c.name, what='%s has a __call__' % c.name)
@@ -369,7 +384,12 @@ def run(chk, repo, tier):
     for c in repo.mod(MQ).tree.body:
         if not isinstance(c, ast.ClassDef):
             continue
-        state = [src(s_)[:50] for s_ in c.body if isinstance(s_, ast.Assign)]
+        from ..match import readonly_literal_table
+        state = [src(s_)[:50] for s_ in c.body if isinstance(s_, ast.Assign)
+                 and not all(isinstance(t, ast.Name)
+                             and readonly_literal_table(
+                                 repo.mod(MQ).tree, c, t.id, literal=False)
+                             for t in s_.targets)]
         chk.ob('R08.8', not state, MQ, c, key='no-class-state:' + c.name,
                qualname=c.name, what='%s has no class-level state' % c.name,
                found='; '.join(state))
